@@ -15,6 +15,8 @@ RULES = {
     "C07.R3": "accumulation dtype: a product of two raw-code operands is promoted to float32 for every pair of 8-bit storage dtypes of the qtype table",
     "C07.R4": "every route casts its result to the scale (activation) dtype last",
     "C07.R7": "operand invariant: every handler that re-lays out a per-axis tensor (t/transpose, cat/stack, moves, copy_) keeps the declared axis and the scale together, so the axis the matmul guards read is where the scale lies",
+    "C07.R8": "the kernels are pure: no write to an operand (or to anything outside the call) is reachable from the linear function, the mm/bmm handlers or the library implementations - a scale updated in place makes the second evaluation differ from the reference (the effect rule C13.R3)",
+    "C07.R9": "every batch shape and memory layout: the kernel helpers and the linear function flatten their operands with reshape, never with view (an operand arrives with whatever stride the caller's tensor has)",
     "C07.R5": "primitive preconditions: every call site of torch._int_mm / torch._weight_int8pack_mm carries the preconditions of the platform table; every route falls through to the default implementation",
     "C07.R6": "the bias is added once, after scaling",
 }
@@ -88,7 +90,24 @@ def run(chk):
     accumulation(chk, fns)
     linear_forward(chk, helper_nodes)
     mm_handlers(chk)
-    operand_invariants(chk)
+    from ..core import views_on_inputs
+    n9 = 0
+    targets9 = [(m, f, name) for name, (m, f) in fns.items()]
+    lci = repo.cls("QTensorLinear")
+    if lci.own("forward") is not None:
+        targets9.append((lci.mod, lci.own("forward"), "QTensorLinear.forward"))
+    for m9, f9, nm9 in targets9:
+        n9 += 1
+        vs = views_on_inputs(f9)
+        chk.require("C07.R9", f"{m9.rel}:{f9.lineno}", not vs, f"{nm9}: operands are flattened with reshape ({[U(v)[:40] for v in vs]})", nm9, "view on an operand",
+                    "non-contiguous activations (x.transpose(1, 2) fed to a quantized linear): RuntimeError `view size is not compatible` where the float linear works")
+    chk.floor("C07.R9", n9, 3, "kernel functions scanned for view()")
+    if chk.pid == "C07":
+        operand_invariants(chk)
+        from ..effects import EffectGraph
+        from ..report import AliasedCheck
+        from . import c13
+        c13.inference_effects(AliasedCheck(chk, {"C13.R3": "C07.R8"}), EffectGraph(repo))
     chk.assume(
         "row-major reshape/view, documented semantics of t/matmul/broadcast/sum",
         "platform table (torch 2.x CUDA: _int_mm needs int8 x int8, rows > 16, rows/inner/outer multiples of 8; sandbox torch 2.14 CPU: _int_mm wrong for inner size 1, _weight_int8pack_mm needs bfloat16 plain activations, int8 weights and inner size a multiple of 16) - established by probing once, not derivable from quanto's sources",
